@@ -197,6 +197,7 @@ func vxC03Exec(t *testing.T, cfg vxRunCfg, x *mc.X) (viol []mc.Violation) {
 		}
 		nops := 0
 		pwmWrites := 0
+		modeJustWritten := false
 		thin := 1
 		if !cfg.Stored && !cfg.ConfMap && !mc.Thorough() {
 			thin = 97
@@ -221,8 +222,19 @@ func vxC03Exec(t *testing.T, cfg vxRunCfg, x *mc.X) (viol []mc.Violation) {
 					stop(fmt.Sprintf("cancel before op #%d (%s %s=%d)", nops, kind, name, value))
 				}
 			}
+			if cfg.Faults && kind == "read" && path == w.dev.Enable && modeJustWritten {
+				// the read-back that follows a write of the control mode fails with an I/O error (what util.ReadIntFromFile
+				// returns then: -1 and the error). Reads that establish the ORIGINAL mode are left alone: without it
+				// there is nothing to hand the fan back to.
+				modeJustWritten = false
+				if x.Choose(2, fmt.Sprintf("read of %s fails (EIO)", name)) == 1 {
+					obs.WriteFault = append(obs.WriteFault, "unreadable "+name)
+					return &env.Result{Val: -1, Err: env.ErrIO}
+				}
+			}
 			if cfg.Faults && kind != "read" && (stopped || (cfg.Scenario == "stall" && regulating)) {
 				isMode := path == w.dev.Enable
+				modeJustWritten = isMode
 				switch x.Choose(3, fmt.Sprintf("fault on %s %s", kind, name)) {
 				case 1:
 					obs.WriteFault = append(obs.WriteFault, fmt.Sprintf("refused %s=%d", name, value))
@@ -363,7 +375,9 @@ func vxC03Exec(t *testing.T, cfg vxRunCfg, x *mc.X) (viol []mc.Violation) {
 	if !handedBack && obs.FinalPwm != 255 {
 		cls := "no faults"
 		for _, f := range obs.WriteFault {
-			if strings.HasPrefix(f, "ignored pwm1_enable") {
+			if strings.HasPrefix(f, "unreadable") {
+				continue
+			} else if strings.HasPrefix(f, "ignored pwm1_enable") {
 				cls = "mode write silently ignored"
 			} else if strings.HasPrefix(f, "refused pwm1_enable") && cls == "no faults" {
 				cls = "mode write refused"
@@ -480,5 +494,5 @@ func TestVX_C03run(t *testing.T) {
 			rep.Sample(sample)
 		}
 	}
-	rep.Note("deviations: cancellation before any file operation or at an idle instant (start-up wait, first-second delay, between ticks), refused / silently ignored writes after the stop event; every execution ends with a cancellation after the third control cycle or with the stalled-at-max error")
+	rep.Note("deviations: cancellation before any file operation or at an idle instant (start-up wait, first-second delay, between ticks), refused / silently ignored writes and failing (EIO) read-backs of the control mode after the stop event; every execution ends with a cancellation after the third control cycle or with the stalled-at-max error")
 }
